@@ -40,8 +40,8 @@ def gen_text(r, for_argv=False, maxlen=40):
     return "".join(out)
 
 
-def one_round(ctx, r, st, ids, epic, big=False, force=None):
-    trace = []
+def one_round(ctx, r, st, ids, epic, big=False, force=None, pre_trace=None):
+    trace = list(pre_trace or [])
     def ex(argv, stdin=None):
         rr = st.exec(argv, stdin, timeout=60)
         trace.append({"argv": argv if sum(len(a) for a in argv) < 400 else argv[:3] + ["…"], "stdin": None if stdin is None else stdin.decode("utf-8", "replace")[:300], "exit": rr["exit"]})
@@ -154,6 +154,21 @@ def run(ctx):
                 body = "".join("a" * (boundary - off) + ch + "b" * 7 for off in (1, 2, 3))[: boundary + 64] + "a" * (boundary - 70) + ch * 40 + "tail"
                 if not one_round(ctx, r, st, ids, None, force=(mode, "chunk %d" % boundary, body)):
                     return
+        # the log carries a title and a body for the item stamped by a clock that runs ahead (a collaborator's lines merged in): the text supplied
+        # *now* is what the next read returns — which text an item has follows from the order of the lines, not from their stamps
+        import datetime
+        for mode in ("set-json", "set-flags", "set-bodystdin"):
+            tid = json.loads(st.exec(["--json", "new", "task"], b'{"title":"edited on two machines","body":"first"}')["stdout"])["id"]
+            f = (datetime.datetime.now(datetime.timezone.utc) + datetime.timedelta(minutes=61)).strftime("%Y-%m-%dT%H:%M:%S.%f000Z")
+            blob = "".join(json.dumps(l, separators=(",", ":")) + "\n" for l in (
+                {"type": "title", "ts": f, "data": {"id": tid, "title": "collaborator's title", "ts": f}},
+                {"type": "body", "ts": f, "data": {"id": tid, "body": "collaborator's body", "ts": f}}))
+            with open(st.log_path(), "ab") as fh:
+                fh.write(blob.encode())
+            pt = [{"argv": ["--json", "new", "task"], "stdin": '{"title":"edited on two machines","body":"first"}'},
+                  {"edit": "lines appended to the log: title and body of the new task as rewritten by a collaborator whose clock runs an hour ahead", "bytes": blob}]
+            if not one_round(ctx, r, st, [tid], None, force=(mode, "title given now", "body given now\nsecond line"), pre_trace=pt):
+                return
         n = 120 if ctx.quick else 2500
         for i in range(n):
             if not one_round(ctx, r, st, ids, None, big=(i % 60 == 7)):
